@@ -770,7 +770,11 @@ def build(ctx):
     for bname, cpu in BUILDS:
         objs = ctx.builder.lib('asan', SRCS, cpu=cpu)
         exes.append((bname, ctx.builder.driver('c02-' + bname, 'asan',
-                                               ['c02_aes.c', 'common/refaes.c'], objs, cpu=cpu)))
+                                               ['c02_aes.c', 'common/refaes.c',
+                                                'common/wrapalloc.c'], objs, cpu=cpu,
+                                               wraps=['malloc', 'calloc', 'realloc', 'free',
+                                                      'strdup'],
+                                               defs=['VH_WRAPALLOC'])))
     return exes
 
 
